@@ -390,6 +390,9 @@ def run(chk, prog, tier):
     model = build_model()
     chk.guard('key alg attribute', c08.check_key_alg_attribute, chk, prog, env, model, rulename='C02.key-alg')
     chk.guard('exact compare', c01.check_exact_compare, chk, prog, model, tier)
+    # "EdDSA: OKP": the one family separation the size rule cannot make and the providers must (shared with C09)
+    from props import c09
+    chk.guard('eddsa key type', c09.check_eddsa_gate, chk, prog, env)
     chk.assumptions += ['asymmetric family mismatches among EC/RSA/OKP keys are refused by the providers and the crypto libraries '
                         '(trusted base); the generic layer is only required to separate oct from non-oct keys (the union discriminant), '
                         'because the unedited test-suite requires ES256 with an OKP key to fail inside the provider']
